@@ -165,6 +165,9 @@ Proof.
   - intros (k & Sg & Hk & Hx). exists Sg. split; [eapply nth_error_In; eassumption|assumption].
 Qed.
 
+Lemma nth_error_Some_lt {A} (l : list A) k x : nth_error l k = Some x -> (k < List.length l)%nat.
+Proof. intros H. apply nth_error_Some. congruence. Qed.
+
 (* ---------------------------------------------------------------- de-duplication of targets *)
 Section Dedup.
   Variable shf : N -> N.
@@ -319,19 +322,19 @@ Section PlanProofs.
   (* ============================================================= the model satisfies the acceptor *)
   Definition in_rack (n : N) : bool := match crit_rack with Some c => crit_ok c n | None => false end.
   Definition has_local : bool := match crit_local with Some _ => true | None => false end.
-  Definition conds : list (N -> bool) :=
-    [ fun n => in_rack n && alive n && mem n rep_local;
-      fun n => has_local && alive n && mem n rep_local;
-      fun n => remote_allowed && alive n && mem n rep_any;
-      fun n => in_rack n && alive n && mem n local_nodes;
-      fun n => alive n && mem n local_nodes;
-      fun n => failover_possible && alive n && mem n all_nodes;
-      fun n => enabled n && mem n local_nodes;
-      fun n => failover_possible && enabled n && mem n all_nodes ].
+  Definition c0 (n : N) : bool := in_rack n && alive n && mem n rep_local.
+  Definition c1 (n : N) : bool := has_local && alive n && mem n rep_local.
+  Definition c2 (n : N) : bool := remote_allowed && alive n && mem n rep_any.
+  Definition c3 (n : N) : bool := in_rack n && alive n && mem n local_nodes.
+  Definition c4 (n : N) : bool := alive n && mem n local_nodes.
+  Definition c5 (n : N) : bool := failover_possible && alive n && mem n all_nodes.
+  Definition c6 (n : N) : bool := enabled n && mem n local_nodes.
+  Definition c7 (n : N) : bool := failover_possible && enabled n && mem n all_nodes.
+  Definition conds : list (N -> bool) := [c0; c1; c2; c3; c4; c5; c6; c7].
 
   Lemma group_of_first_true n : group_of n = first_true conds n.
   Proof.
-    unfold Plan.group_of, Plan.group_with, conds, in_rack, has_local. cbv zeta. cbn [first_true].
+    unfold Plan.group_of, Plan.group_with, conds, c0, c1, c2, c3, c4, c5, c6, c7, in_rack, has_local. cbv zeta. cbn [first_true].
     repeat match goal with |- context [if ?b then _ else _] => destruct b end; reflexivity.
   Qed.
 
@@ -416,7 +419,7 @@ Section PlanProofs.
     Lemma segments_spec :
       Forall2 (fun c Sg => forall n, In n Sg <-> c n = true) conds (seg_replicas ++ seg_nodes).
     Proof.
-      unfold conds, seg_replicas, seg_nodes, in_rack, has_local.
+      unfold conds, c0, c1, c2, c3, c4, c5, c6, c7, seg_replicas, seg_nodes, in_rack, has_local.
       assert (Hrl : forall t s c, token_strategy = Some (t, s) -> crit_local = Some c -> rep_local = reps_iter t s c).
       { intros t s c E1 E2. unfold Plan.rep_local. now rewrite E1, E2. }
       assert (Hra : forall t s, token_strategy = Some (t, s) -> rep_any = reps_iter t s CAny).
@@ -480,10 +483,10 @@ Section PlanProofs.
     Lemma dc_nodes_In d n : In n (unique_nodes (dc_ring dcf g d)) <-> In n all_nodes /\ in_dc dcf d n = true.
     Proof.
       unfold unique_nodes at 1. rewrite uniq_In, in_map_iff. split.
-      - intros (e & E & He). apply dc_ring_In in He. destruct He as [He Hd]. subst n.
+      - intros (e & E & He). apply (dc_ring_In dcf rackf) in He. destruct He as [He Hd]. subst n.
         split; [apply all_nodes_In; exists e; tauto|assumption].
       - intros [Hn Hd]. apply all_nodes_In in Hn. destruct Hn as (e & He & <-). exists e.
-        split; [reflexivity|]. apply dc_ring_In. tauto.
+        split; [reflexivity|]. apply (dc_ring_In dcf rackf). tauto.
     Qed.
 
     Lemma local_nodes_ok n : In n local_nodes ->
@@ -542,7 +545,7 @@ Section PlanProofs.
       assert (Hperm : forall m, In m all_nodes -> (forall d, restricted_dc = Some d -> in_dc dcf d m = true) -> permitted m = true).
       { intros m H1 H2. unfold Plan.permitted, Plan.permitted_with. rewrite andb_true_iff, mem_In. split; [assumption|].
         destruct restricted_dc as [d|]; [now apply H2|reflexivity]. }
-      destruct Hc as [<-|[<-|[<-|[<-|[<-|[<-|[<-|[<-|[]]]]]]]]]; rewrite ?andb_true_iff, ?mem_In in E.
+      destruct Hc as [<-|[<-|[<-|[<-|[<-|[<-|[<-|[<-|[]]]]]]]]]; unfold c0, c1, c2, c3, c4, c5, c6, c7 in E; rewrite ?andb_true_iff, ?mem_In in E.
       - destruct E as [[_ Ha] Hr]. split; [now apply alive_enabled|]. apply rep_local_ok in Hr. now apply Hperm.
       - destruct E as [[_ Ha] Hr]. split; [now apply alive_enabled|]. apply rep_local_ok in Hr. now apply Hperm.
       - destruct E as [[Hra Ha] Hr]. split; [now apply alive_enabled|]. apply rep_any_ok in Hr.
@@ -570,10 +573,10 @@ Section PlanProofs.
       In n (concat (seg_replicas ++ seg_nodes)) <-> exists c, In c conds /\ c n = true.
     Proof.
       rewrite In_concat_nth. split.
-      - intros (k & Sg & Hk & Hn). destruct (segs_In_cond _ _ segments_spec k Sg n Hk Hn) as (c & Hc & E).
+      - intros (k & Sg & Hq & Hn). destruct (segs_In_cond _ _ segments_spec k Sg n Hq Hn) as (c & Hc & E).
         exists c. split; [eapply nth_error_In; eassumption|assumption].
-      - intros (c & Hc & E). apply In_nth_error in Hc. destruct Hc as (k & Hk).
-        destruct (segs_nth_In _ _ segments_spec k c n Hk E) as (Sg & HS & Hn). eauto.
+      - intros (c & Hc & E). apply In_nth_error in Hc. destruct Hc as (k & Hq).
+        destruct (segs_nth_In _ _ segments_spec k c n Hq E) as (Sg & HS & Hn). eauto.
     Qed.
 
     Lemma lwt_sequence_segs : rq_lwt rq = true -> lwt_sequence = uniq (concat seg_replicas).
@@ -593,10 +596,10 @@ Section PlanProofs.
         destruct (segs_nth_In _ _ segments_spec _ c n Hc E) as (Sg & HS & Hn).
         apply In_concat_nth. exists (first_true conds n), Sg. split; [|assumption].
         rewrite nth_error_app1 in HS by (rewrite seg_replicas_length; assumption). assumption.
-      - intros H. apply In_concat_nth in H. destruct H as (k & Sg & Hk & Hn).
-        assert (Hk3 : (k < 3)%nat) by (rewrite <- seg_replicas_length; apply nth_error_Some; congruence).
-        assert (Hk' : nth_error (seg_replicas ++ seg_nodes) k = Some Sg) by (rewrite nth_error_app1; [assumption|rewrite seg_replicas_length; assumption]).
-        destruct (segs_In_cond _ _ segments_spec k Sg n Hk' Hn) as (c & Hc & E).
+      - intros H. apply In_concat_nth in H. destruct H as (k & Sg & Hq & Hn).
+        assert (Hq3 : (k < 3)%nat) by (rewrite <- seg_replicas_length; apply nth_error_Some; congruence).
+        assert (Hq' : nth_error (seg_replicas ++ seg_nodes) k = Some Sg) by (rewrite nth_error_app1; [assumption|rewrite seg_replicas_length; assumption]).
+        destruct (segs_In_cond _ _ segments_spec k Sg n Hq' Hn) as (c & Hc & E).
         pose proof (first_true_nth conds n k c Hc E). lia.
     Qed.
 
@@ -615,9 +618,9 @@ Section PlanProofs.
       - apply forallb_forall. intros n Hn. apply filter_In in Hn. destruct Hn as [_ Hn].
         apply andb_true_iff in Hn. destruct Hn as [He Hp]. apply mem_In, HF.
         destruct (ok_in_last_groups n He Hp) as [H|[Hf H]]; apply filter_In in H; destruct H as [H1 H2].
-        + exists (fun n => enabled n && mem n local_nodes). split; [unfold conds; cbn; tauto|].
+        + exists c6. split; [unfold conds; cbn; tauto|]. unfold c6.
           rewrite H2. cbn. now apply mem_In.
-        + exists (fun n => failover_possible && enabled n && mem n all_nodes). split; [unfold conds; cbn; tauto|].
+        + exists c7. split; [unfold conds; cbn; tauto|]. unfold c7.
           rewrite Hf, H2. cbn. now apply mem_In.
       - rewrite (map_ext _ _ group_of_first_true). apply uniq_concat_sorted, segments_spec.
       - destruct (rq_lwt rq) eqn:Hl; [|reflexivity]. apply list_eqb_spec. rewrite (lwt_sequence_segs Hl).
@@ -628,9 +631,353 @@ Section PlanProofs.
         + intros n Hn. apply filter_In in Hn. destruct Hn as [Hn Hm].
           apply negb_true_iff, (mem_by_false N.eqb Neqb_eq) in Hm. apply Nat.ltb_ge.
           destruct (Nat.lt_ge_cases (group_of n) 3) as [Hlt|]; [|assumption]. exfalso. apply Hm.
-          apply replica_group_iff; [|assumption]. rewrite concat_app. apply in_or_app. right. now apply uniq_In in Hn.
+          apply replica_group_iff; [|assumption]. rewrite concat_app. apply in_or_app. right. rewrite uniq_In in Hn. exact Hn.
         + intros n Hn. apply Nat.ltb_lt. rewrite uniq_In in Hn. apply replica_group_iff; [|assumption].
           rewrite concat_app. apply in_or_app. now left.
+    Qed.
+
+    Theorem fallback_properties :
+      let p := map fst fallback in
+      P_nodup p /\ P_filter enabled p /\ P_locality dcf pol rq p /\ P_complete dcf g enabled pol rq p /\
+      P_order dcf rackf g keyspaces enabled connected pol rq p /\
+      P_lwt dcf rackf g keyspaces enabled connected pol rq p.
+    Proof. apply plan_matches_sound, fallback_matches. Qed.
+
+    (* no two elements of the fallback plan are equal under the target comparator *)
+    Lemma cmp_same_node x y : target_cmp x y = true -> fst x = fst y.
+    Proof. unfold target_cmp. intros H. apply andb_true_iff in H. now apply N.eqb_eq. Qed.
+
+    Theorem fallback_targets_distinct :
+      ForallOrdPairs (fun x y => target_cmp x y = false) fallback.
+    Proof.
+      assert (Hn : NoDup (map fst fallback)) by (rewrite fallback_nodes; apply uniq_NoDup).
+      induction fallback as [|x r IH]; [constructor|]. cbn [map] in Hn. inversion Hn as [|? ? Hx Hr]; subst.
+      constructor; [|auto]. apply Forall_forall. intros y Hy.
+      destruct (target_cmp x y) eqn:E; [|reflexivity]. exfalso. apply Hx.
+      apply cmp_same_node in E. rewrite E. now apply in_map.
+    Qed.
+
+    (* ============================================================= pick() *)
+    Hypothesis Hcho : forall site len, (0 < len)%nat -> (cho site len < len)%nat.
+
+    Local Notation pick := (pick dcf rackf g keyspaces enabled connected shf pol rq cho).
+    Local Notation plan := (plan dcf rackf g keyspaces enabled connected shf pol rq cho shuf).
+    Local Notation pick_replica := (pick_replica dcf rackf g keyspaces enabled connected rq cho).
+    Local Notation pick_node := (pick_node cho).
+
+    Lemma nth_error_cho {A} (l : list A) site : l <> [] -> exists x, nth_error l (cho site (List.length l)) = Some x.
+    Proof.
+      intros Hne. destruct (nth_error l (cho site (List.length l))) as [x|] eqn:E; [now exists x|].
+      apply nth_error_None in E. destruct l as [|y r]; [congruence|].
+      specialize (Hcho site (List.length (y :: r))). cbn [List.length] in *. lia.
+    Qed.
+
+    Lemma pick_node_spec site nodes pred :
+      match pick_node site nodes pred with
+      | Some n => In n nodes /\ pred n = true
+      | None => forall n, In n nodes -> pred n = false
+      end.
+    Proof.
+      unfold Plan.pick_node. destruct (find pred (rotate (cho site (List.length nodes)) nodes)) as [n|] eqn:E.
+      - apply find_some in E. destruct E as [E1 E2]. split; [|assumption].
+        revert E1. apply Permutation_in, rotate_perm.
+      - intros n Hn. apply (find_none _ _ E). revert Hn. apply Permutation_in, Permutation_sym, rotate_perm.
+    Qed.
+
+    Lemma pick_replica_spec site t s c : nts_keys_ok s ->
+      match pick_replica site t s c with
+      | Some (Computed n) =>
+          alive n = true /\ crit_ok c n = true /\ In n (reps_iter t s c) /\
+          (rq_lwt rq = true -> exists r, filtered_replicas t s c alive true = n :: r)
+      | Some ToBeComputedInFallback =>
+          rq_lwt rq = true /\ c = CAny /\
+          exists primary r, reps_ordered t s CAny = primary :: r /\ alive primary = false
+      | None => forall n, In n (reps_iter t s c) -> alive n && crit_ok c n = false
+      end.
+    Proof.
+      intros Hok. unfold Plan.pick_replica. destruct (rq_lwt rq) eqn:Hl.
+      - assert (Hdet : match filtered_replicas t s c alive true with
+                       | [] => forall n, In n (reps_iter t s c) -> alive n && crit_ok c n = false
+                       | n :: r => alive n = true /\ crit_ok c n = true /\ In n (reps_iter t s c)
+                       end).
+        { destruct (filtered_replicas t s c alive true) as [|n r] eqn:Ef.
+          - intros n Hn. destruct (alive n && crit_ok c n) eqn:E; [|reflexivity]. exfalso.
+            assert (Hin : In n (filtered_replicas t s c alive true)).
+            { unfold Plan.filtered_replicas. apply filter_In. split; [now apply ordered_iter_In|assumption]. }
+            rewrite Ef in Hin. destruct Hin.
+          - assert (Hin : In n (filtered_replicas t s c alive true)) by (rewrite Ef; now left).
+            unfold Plan.filtered_replicas in Hin. apply filter_In in Hin. destruct Hin as [H1 H2].
+            apply andb_true_iff in H2. rewrite (ordered_iter_In t s c n Hok) in H1. tauto. }
+        destruct c as [|d|d r0].
+        + destruct (reps_ordered t s CAny) as [|primary r] eqn:Eo.
+          * intros n Hn. apply (ordered_iter_In t s CAny n Hok) in Hn. rewrite Eo in Hn. destruct Hn.
+          * destruct (alive primary) eqn:Ea.
+            -- split; [assumption|]. split; [reflexivity|]. split.
+               ++ apply (ordered_iter_In t s CAny primary Hok). rewrite Eo. now left.
+               ++ intros _. unfold Plan.filtered_replicas. rewrite Eo. cbn [filter Plan.crit_ok].
+                  rewrite Ea. cbn [andb]. eexists. reflexivity.
+            -- split; [reflexivity|]. split; [reflexivity|]. exists primary, r. split; [reflexivity|assumption].
+        + destruct (filtered_replicas t s (CDc d) alive true) as [|n r]; [exact Hdet|].
+          destruct Hdet as (H1 & H2 & H3). repeat split; try assumption. intros _. eexists. reflexivity.
+        + destruct (filtered_replicas t s (CRack d r0) alive true) as [|n r]; [exact Hdet|].
+          destruct Hdet as (H1 & H2 & H3). repeat split; try assumption. intros _. eexists. reflexivity.
+      - set (it := reps_iter t s c).
+        destruct (nth_error it (cho site (List.length it))) as [happy|] eqn:Eh.
+        + destruct (alive happy && crit_ok c happy) eqn:Ep.
+          * apply andb_true_iff in Ep. destruct Ep as [E1 E2]. repeat split; try assumption.
+            -- eapply nth_error_In; eassumption.
+            -- discriminate.
+          * set (f := filter (fun n => alive n && crit_ok c n) it).
+            destruct (nth_error f (cho (site + 10) (List.length f))) as [n|] eqn:Ef; cbn [option_map].
+            -- apply nth_error_In in Ef. unfold f in Ef. apply filter_In in Ef. destruct Ef as [F1 F2].
+               apply andb_true_iff in F2. destruct F2 as [F2 F3]. repeat split; try assumption. discriminate.
+            -- intros n Hn. destruct (alive n && crit_ok c n) eqn:E; [|reflexivity]. exfalso.
+               assert (Hne : f <> []).
+               { intros C. assert (Hin : In n f) by (unfold f; apply filter_In; tauto). rewrite C in Hin. destruct Hin. }
+               destruct (nth_error_cho f (site + 10) Hne) as (x & Hx). congruence.
+        + intros n Hn. exfalso. assert (Hne : it <> []) by (intros C; rewrite C in Hn; destruct Hn).
+          destruct (nth_error_cho it site Hne) as (x & Hx). congruence.
+    Qed.
+
+    Definition none_below (k : nat) : Prop :=
+      forall j c, (j < k)%nat -> nth_error conds j = Some c -> forall n, c n = false.
+
+    Lemma none_below_0 : none_below 0.
+    Proof. intros j c Hj. lia. Qed.
+
+    Lemma none_below_S k c : nth_error conds k = Some c -> none_below k -> (forall n, c n = false) -> none_below (S k).
+    Proof.
+      intros Hc Hb Hn j c' Hj Hc' n. destruct (Nat.eq_dec j k) as [->|Hne].
+      - rewrite Hc in Hc'. injection Hc' as <-. apply Hn.
+      - apply (Hb j c'); [lia|assumption].
+    Qed.
+
+    Lemma none_below_group k n : (k <= 8)%nat -> none_below k -> (k <= group_of n)%nat.
+    Proof.
+      intros Hk8 Hb. rewrite group_of_first_true.
+      destruct (Nat.lt_ge_cases (first_true conds n) k) as [Hlt|]; [|assumption]. exfalso.
+      assert (Hlen : (first_true conds n < List.length conds)%nat) by (unfold conds at 2; cbn [List.length]; lia).
+      destruct (first_true_true conds n Hlen) as (c & Hc & E). rewrite (Hb _ c Hlt Hc n) in E. discriminate.
+    Qed.
+
+    Lemma and_mem_false (pred : N -> bool) nodes :
+      (forall n, In n nodes -> pred n = false) -> forall n, pred n && mem n nodes = false.
+    Proof.
+      intros H n. destruct (mem n nodes) eqn:E; [|apply andb_false_r].
+      apply mem_In in E. rewrite (H n E). reflexivity.
+    Qed.
+
+    Lemma in_rack_some c n : crit_rack = Some c -> in_rack n = crit_ok c n.
+    Proof. intros E. unfold in_rack. now rewrite E. Qed.
+    Lemma in_rack_none n : crit_rack = None -> in_rack n = false.
+    Proof. intros E. unfold in_rack. now rewrite E. Qed.
+
+    (* the token-unaware attempts *)
+    Lemma nodes_part_spec : none_below 3 ->
+      match pick_nodes_part dcf rackf g enabled connected pol rq cho with
+      | Some (p, sh) => exists k c, nth_error conds k = Some c /\ c p = true /\ none_below k /\
+                                    sh = None /\ (3 <= k)%nat
+      | None => none_below 8
+      end.
+    Proof.
+      intros H3. unfold Plan.pick_nodes_part, Plan.node_steps. cbn [first_node].
+      (* attempt 3: local rack *)
+      assert (S3 : (exists p, match crit_rack with
+                              | Some c => pick_node 24 local_nodes (fun n => alive n && crit_ok c n)
+                              | None => None end = Some p /\ c3 p = true) \/
+                   (match crit_rack with
+                    | Some c => pick_node 24 local_nodes (fun n => alive n && crit_ok c n)
+                    | None => None end = None /\ forall n, c3 n = false)).
+      { destruct crit_rack as [c|] eqn:Ec.
+        - pose proof (pick_node_spec 24 local_nodes (fun n => alive n && crit_ok c n)) as Hs3.
+          destruct (pick_node 24 local_nodes (fun n => alive n && crit_ok c n)) as [p|].
+          + left. exists p. split; [reflexivity|]. destruct Hs3 as [Hin Hp]. unfold c3.
+            rewrite (in_rack_some c p Ec). apply mem_In in Hin. rewrite Hin.
+            apply andb_true_iff in Hp. destruct Hp as [-> ->]. reflexivity.
+          + right. split; [reflexivity|]. intros n. unfold c3. rewrite (in_rack_some c n Ec).
+            rewrite (andb_comm (crit_ok c n)). exact (and_mem_false (fun n => alive n && crit_ok c n) local_nodes Hs3 n).
+        - right. split; [reflexivity|]. intros n. unfold c3. now rewrite (in_rack_none n Ec). }
+      destruct S3 as [(p & -> & Hp)|[-> N3]].
+      { exists 3%nat, c3. repeat split; try assumption; try reflexivity; try lia. }
+      pose proof (none_below_S 3 c3 eq_refl H3 N3) as H4.
+      (* attempt 4: local *)
+      pose proof (pick_node_spec 25 local_nodes alive) as Hs4.
+      destruct (pick_node 25 local_nodes alive) as [p|].
+      { destruct Hs4 as [Hin Hp]. exists 4%nat, c4.
+        assert (c4 p = true) by (unfold c4; apply mem_In in Hin; now rewrite Hp, Hin).
+        repeat split; try assumption; try reflexivity; try lia. }
+      assert (N4 : forall n, c4 n = false) by (intros n; unfold c4; now apply and_mem_false).
+      pose proof (none_below_S 4 c4 eq_refl H4 N4) as H5.
+      (* attempt 5: anywhere, if failover is possible *)
+      assert (S5 : (exists p, (if failover_possible then pick_node 26 all_nodes alive else None) = Some p /\ c5 p = true) \/
+                   ((if failover_possible then pick_node 26 all_nodes alive else None) = None /\ forall n, c5 n = false)).
+      { destruct failover_possible eqn:Ef.
+        - pose proof (pick_node_spec 26 all_nodes alive) as Hs5.
+          destruct (pick_node 26 all_nodes alive) as [p|].
+          + left. exists p. split; [reflexivity|]. destruct Hs5 as [Hin Hp]. unfold c5.
+            apply mem_In in Hin. now rewrite Ef, Hp, Hin.
+          + right. split; [reflexivity|]. intros n. unfold c5. rewrite Ef. cbn [andb]. now apply and_mem_false.
+        - right. split; [reflexivity|]. intros n. unfold c5. now rewrite Ef. }
+      destruct S5 as [(p & -> & Hp)|[-> N5]].
+      { exists 5%nat, c5. repeat split; try assumption; try reflexivity; try lia. }
+      pose proof (none_below_S 5 c5 eq_refl H5 N5) as H6.
+      (* attempt 6: enabled local *)
+      pose proof (pick_node_spec 27 local_nodes enabled) as Hs6.
+      destruct (pick_node 27 local_nodes enabled) as [p|].
+      { destruct Hs6 as [Hin Hp]. exists 6%nat, c6.
+        assert (c6 p = true) by (unfold c6; apply mem_In in Hin; now rewrite Hp, Hin).
+        repeat split; try assumption; try reflexivity; try lia. }
+      assert (N6 : forall n, c6 n = false) by (intros n; unfold c6; now apply and_mem_false).
+      pose proof (none_below_S 6 c6 eq_refl H6 N6) as H7.
+      (* attempt 7: enabled anywhere *)
+      destruct failover_possible eqn:Ef.
+      - pose proof (pick_node_spec 28 all_nodes enabled) as Hs7.
+        destruct (pick_node 28 all_nodes enabled) as [p|].
+        + destruct Hs7 as [Hin Hp]. exists 7%nat, c7.
+          assert (c7 p = true) by (unfold c7; apply mem_In in Hin; now rewrite Ef, Hp, Hin).
+          repeat split; try assumption; try reflexivity; try lia.
+        + apply (none_below_S 7 c7 eq_refl H7). intros n. unfold c7. rewrite Ef. cbn [andb]. now apply and_mem_false.
+      - apply (none_below_S 7 c7 eq_refl H7). intros n. unfold c7. now rewrite Ef.
+    Qed.
+
+    (* the token-aware attempts *)
+    Lemma filtered_det_In t s c m : nts_keys_ok s -> In m (filtered_replicas t s c alive true) ->
+      alive m && crit_ok c m && mem m (reps_iter t s c) = true.
+    Proof.
+      intros Hok H. unfold Plan.filtered_replicas in H. apply filter_In in H. destruct H as [H1 H2].
+      rewrite H2. cbn [andb]. apply mem_In. now apply (ordered_iter_In t s c m Hok).
+    Qed.
+
+    Lemma replica_step_spec site t s c (ck : N -> bool) : nts_keys_ok s ->
+      (forall n, ck n = alive n && crit_ok c n && mem n (reps_iter t s c)) ->
+      match pick_replica site t s c with
+      | Some (Computed n) => ck n = true /\ (rq_lwt rq = true -> exists r, filtered_replicas t s c alive true = n :: r)
+      | Some ToBeComputedInFallback =>
+          rq_lwt rq = true /\ c = CAny /\ exists primary r, reps_ordered t s CAny = primary :: r /\ alive primary = false
+      | None => (forall n, ck n = false) /\ filtered_replicas t s c alive true = []
+      end.
+    Proof.
+      intros Hok Heq. pose proof (pick_replica_spec site t s c Hok) as H.
+      destruct (pick_replica site t s c) as [[n|]|].
+      - destruct H as (H1 & H2 & H3 & H4). split; [|assumption]. rewrite Heq, H1, H2. cbn. now apply mem_In.
+      - assumption.
+      - assert (Hn : forall n, ck n = false).
+        { intros n. rewrite Heq. exact (and_mem_false (fun n => alive n && crit_ok c n) _ H n). }
+        split; [assumption|]. destruct (filtered_replicas t s c alive true) as [|m r] eqn:E; [reflexivity|].
+        assert (Hm : In m (filtered_replicas t s c alive true)) by (rewrite E; now left).
+        apply (filtered_det_In t s c m Hok) in Hm. rewrite <- Heq, Hn in Hm. discriminate.
+    Qed.
+
+    Lemma c0_eq t s c n : token_strategy = Some (t, s) -> crit_rack = Some c ->
+      c0 n = alive n && crit_ok c n && mem n (reps_iter t s c).
+    Proof.
+      intros Ets Ec. destruct (crit_rack_local c Ec) as (d & r & -> & El).
+      unfold c0. rewrite (in_rack_some _ n Ec). unfold Plan.rep_local. rewrite Ets, El.
+      rewrite (andb_comm (crit_ok (CRack d r) n)). reflexivity.
+    Qed.
+    Lemma c1_eq t s c n : token_strategy = Some (t, s) -> crit_local = Some c ->
+      c1 n = alive n && crit_ok c n && mem n (reps_iter t s c).
+    Proof.
+      intros Ets Ec. destruct (crit_local_dc c Ec) as (d & ->).
+      unfold c1, has_local. unfold Plan.rep_local. rewrite Ets, Ec. cbn [Plan.crit_ok andb].
+      now rewrite andb_true_r.
+    Qed.
+    Lemma c2_eq t s n : token_strategy = Some (t, s) -> remote_allowed = true ->
+      c2 n = alive n && crit_ok CAny n && mem n (reps_iter t s CAny).
+    Proof.
+      intros Ets Er. unfold c2. unfold Plan.rep_any. rewrite Ets, Er. cbn [Plan.crit_ok andb].
+      now rewrite andb_true_r.
+    Qed.
+
+    Lemma uniq_cons_app n (r X : list N) : exists q, uniq ((n :: r) ++ X) = n :: q.
+    Proof. unfold uniq, uniq_by. cbn [app uniq_aux mem_by existsb]. eexists. reflexivity. Qed.
+
+    Definition pick_result_ok (o : option target) : Prop :=
+      match o with
+      | Some (p, sh) =>
+          exists k c, nth_error conds k = Some c /\ c p = true /\ none_below k /\
+                      sh = (if (k <? 3)%nat then Some (shf p) else None) /\
+                      (rq_lwt rq = true -> (k < 3)%nat -> exists r, lwt_sequence = p :: r)
+      | None =>
+          none_below 8 \/
+          (rq_lwt rq = true /\ remote_allowed = true /\ none_below 2 /\
+           exists t s primary r, token_strategy = Some (t, s) /\ reps_ordered t s CAny = primary :: r /\
+                                 alive primary = false)
+      end.
+
+    Lemma nodes_part_result : none_below 3 ->
+      pick_result_ok (pick_nodes_part dcf rackf g enabled connected pol rq cho).
+    Proof.
+      intros H3. pose proof (nodes_part_spec H3) as H.
+      destruct (pick_nodes_part dcf rackf g enabled connected pol rq cho) as [[p sh]|]; [|now left].
+      destruct H as (k & c & Hc & Hp & Hb & -> & Hk3). exists k, c. repeat split; try assumption.
+      - assert (E : (k <? 3)%nat = false) by (apply Nat.ltb_ge; assumption). now rewrite E.
+      - intros _ Hlt. lia.
+    Qed.
+
+    Theorem pick_spec : pick_result_ok pick.
+    Proof.
+      unfold Plan.pick. destruct token_strategy as [[t s]|] eqn:Ets.
+      2:{ (* no token / keyspace / token-awareness: no replica group exists *)
+          apply nodes_part_result.
+          assert (Hrl : rep_local = []) by (unfold Plan.rep_local; now rewrite Ets).
+          assert (Hra : rep_any = []) by (unfold Plan.rep_any; now rewrite Ets).
+          apply (none_below_S 2 c2 eq_refl); [apply (none_below_S 1 c1 eq_refl); [apply (none_below_S 0 c0 eq_refl); [apply none_below_0|]|]|];
+            intros n; unfold c0, c1, c2; rewrite ?Hrl, ?Hra; apply andb_false_r. }
+      pose proof (token_strategy_keys t s Ets) as Hok.
+      unfold Plan.replica_steps. cbn [first_picked].
+      assert (Hseq : lwt_sequence =
+                uniq ((match crit_rack with Some c => filtered_replicas t s c alive true | None => [] end) ++
+                      (match crit_local with Some c => filtered_replicas t s c alive true | None => [] end) ++
+                      (if remote_allowed then filtered_replicas t s CAny alive true else []))).
+      { unfold Plan.lwt_sequence. now rewrite Ets. }
+      (* attempt 0: local rack *)
+      assert (S0 : (exists n, match crit_rack with Some c => pick_replica 21 t s c | None => None end = Some (Computed n) /\
+                              c0 n = true /\ (rq_lwt rq = true -> exists r, lwt_sequence = n :: r)) \/
+                   (match crit_rack with Some c => pick_replica 21 t s c | None => None end = None /\
+                    (forall n, c0 n = false) /\
+                    match crit_rack with Some c => filtered_replicas t s c alive true | None => [] end = [])).
+      { destruct crit_rack as [c|] eqn:Ec.
+        - pose proof (replica_step_spec 21 t s c c0 Hok (fun n => c0_eq t s c n Ets Ec)) as H.
+          destruct (pick_replica 21 t s c) as [[n|]|].
+          + left. exists n. split; [reflexivity|]. destruct H as [H1 H2]. split; [assumption|].
+            intros Hl. destruct (H2 Hl) as (r & Er). rewrite Hseq, Er. apply uniq_cons_app.
+          + exfalso. destruct H as (_ & Hc & _). destruct (crit_rack_local c Ec) as (d & r & -> & _). discriminate.
+          + right. destruct H as [H1 H2]. split; [reflexivity|]. split; assumption.
+        - right. split; [reflexivity|]. split; [|reflexivity]. intros n. unfold c0. now rewrite (in_rack_none n Ec). }
+      destruct S0 as [(n & -> & Hn & Hl)|(-> & N0 & D0)].
+      { exists 0%nat, c0. split; [reflexivity|]. split; [assumption|]. split; [apply none_below_0|].
+        split; [reflexivity|]. intros Hl' _. now apply Hl. }
+      pose proof (none_below_S 0 c0 eq_refl none_below_0 N0) as H1. rewrite D0 in Hseq. cbn [app] in Hseq.
+      (* attempt 1: local datacenter *)
+      assert (S1 : (exists n, match crit_local with Some c => pick_replica 22 t s c | None => None end = Some (Computed n) /\
+                              c1 n = true /\ (rq_lwt rq = true -> exists r, lwt_sequence = n :: r)) \/
+                   (match crit_local with Some c => pick_replica 22 t s c | None => None end = None /\
+                    (forall n, c1 n = false) /\
+                    match crit_local with Some c => filtered_replicas t s c alive true | None => [] end = [])).
+      { destruct crit_local as [c|] eqn:Ec.
+        - pose proof (replica_step_spec 22 t s c c1 Hok (fun n => c1_eq t s c n Ets Ec)) as H.
+          destruct (pick_replica 22 t s c) as [[n|]|].
+          + left. exists n. split; [reflexivity|]. destruct H as [Hc1 H2]. split; [assumption|].
+            intros Hl. destruct (H2 Hl) as (r & Er). rewrite Hseq, Er. apply uniq_cons_app.
+          + exfalso. destruct H as (_ & Hc & _). destruct (crit_local_dc c Ec) as (d & ->). discriminate.
+          + right. destruct H as [Hc1 H2]. split; [reflexivity|]. split; assumption.
+        - right. split; [reflexivity|]. split; [|reflexivity]. intros n. unfold c1, has_local. now rewrite Ec. }
+      destruct S1 as [(n & -> & Hn & Hl)|(-> & N1 & D1)].
+      { exists 1%nat, c1. split; [reflexivity|]. split; [assumption|]. split; [assumption|].
+        split; [reflexivity|]. intros Hl' _. now apply Hl. }
+      pose proof (none_below_S 1 c1 eq_refl H1 N1) as H2. rewrite D1 in Hseq. cbn [app] in Hseq.
+      (* attempt 2: any datacenter *)
+      destruct remote_allowed eqn:Er.
+      - pose proof (replica_step_spec 23 t s CAny c2 Hok (fun n => c2_eq t s n Ets Er)) as H.
+        destruct (pick_replica 23 t s CAny) as [[n|]|].
+        + destruct H as [Hc2 Hl2]. exists 2%nat, c2. repeat split; try assumption; try reflexivity.
+          intros Hl _. destruct (Hl2 Hl) as (r & Er2). rewrite Hseq, Er2.
+          rewrite <- (app_nil_r (n :: r)). apply uniq_cons_app.
+        + right. destruct H as (Hl & _ & primary & r & Eo & Ea). repeat split; try assumption.
+          exists t, s, primary, r. repeat split; assumption.
+        + destruct H as [N2 _]. apply nodes_part_result. exact (none_below_S 2 c2 eq_refl H2 N2).
+      - apply nodes_part_result. apply (none_below_S 2 c2 eq_refl H2). intros n. unfold c2. now rewrite Er.
     Qed.
   End Model.
 End PlanProofs.
